@@ -679,6 +679,13 @@ theorem mutex_live_holder_source (n now ts : Nat) (hn : 0 < n) (hts : ts ≤ now
   safe_of_inv (Inv.run es (inv_initHeld n now ts debug false abandonPolicy publishByLink source_publish_condition
     (Or.inl rfl) hn hts) hclk)
 
+/-- **The model's `alive` predicate is what the source computes**: `is_process_running(pid)` is `kill(pid, 0) == 0`
+    and nothing else, i.e. a pid counts as alive exactly as long as the process exists (`State.alive`: true from
+    start until the process has left).  Every mutex theorem relies on "a live holder is reported alive"
+    (`GInv.liveness`/`Inv.liveness` + `decide'`); a further condition in the probe (what the process executes,
+    who owns it, …) can report a live holder dead and breaks them — it flips this theorem. -/
+theorem liveness_is_kill_zero : livenessIsKillZero = true := by decide
+
 /-- the shapes of `lock.rs` for which mutual exclusion is proved: unguarded (theorems `mutex_*_source` above, with
     their clock / exit hypotheses), or guarded with "a live holder is never stale" and publish by link
     (`mutex_source_guarded` below, no hypotheses).  A guard without the liveness repair is not covered. -/
